@@ -7,7 +7,8 @@ Cases are merge-family cases (a list of documents) of two kinds:
              names, float keys) x argument forms (mapping, list, scalar, empty, `!call name`);
   * 'merge': a function node followed by 1-3 stages that merge a mapping / list / string (same or
              different name) / function node (same or different target, with or without `!merge`)
-             onto it, with priorities.
+             onto it, with priorities on the nodes and, in 4 of 10 histories, on individual arguments
+             (`{a: !force 1}`, `[!weak 2]`): arguments that outrank / are outranked by the incoming node.
 Correspondence: merged tree and evaluated config of the implementation against the Lean model.
 Oracle (implementation alone, independent of the model):
   * binding: the positional/keyword split that the property text prescribes, bound with Python's own
@@ -300,11 +301,29 @@ def gen_small_keys(rng, fname):
     return rng.sample(pool, rng.randrange(0, 4))
 
 
+def with_arg_prio(rng, node, p, strong=0.7):
+    """tag each (so far untagged) argument of a mapping / list / function node with `!force` or `!weak` with
+    probability p: an argument that outranks, or is outranked by, the node merged onto its parent"""
+    for c in (node.get('q') or [c for _, c in node.get('m', [])]):
+        if not c.get('t') and not c.get('kw') and rng.random() < p:
+            c['t'] = {'k': 'plain'}
+            c['kw'] = {'prio': 1 if rng.random() < strong else -1}
+    return node
+
+
+def has_arg_prio(raw):
+    return any((c.get('kw') or {}).get('prio') is not None for c in (raw.get('q') or [c for _, c in raw.get('m', [])]))
+
+
 def gen_merge_case(rng):
     f0 = rng.choice(MERGE_TARGETS)
     kind0 = rng.choice(['call', 'bind'])
     kw0 = gen_prio_kw(rng, 0.2)
+    # per-argument priorities: in 4 of 10 histories the arguments of the first node (often) and of the later stages
+    # (sometimes) carry their own !force / !weak
+    p_arg0, p_arg = (rng.choice([0.4, 0.7, 1.0]), 0.25) if rng.random() < 0.4 else (0, 0)
     node0 = gen_func_node(rng, kind0, f0, gen_small_keys(rng, f0), kw=kw0 or None, allow_dyn=False)
+    with_arg_prio(rng, node0, p_arg0)
     docs = [{'raw': M([('v', S(7)), ('r', node0)])}]
     ops = []
     cur = f0
@@ -331,6 +350,7 @@ def gen_merge_case(rng):
                 kw = dict(kw, **{'del': False})
             x = gen_func_node(rng, rng.choice(['call', 'bind']), name, gen_small_keys(rng, name), kw=kw or None,
                               allow_dyn=False, forms=rng.random() < 0.5)
+        with_arg_prio(rng, x, p_arg, 0.5)
         ops.append(op)
         docs.append({'raw': M([('r', x)])})
         if op in ('str_diff', 'fn_diff', 'fn_diff_merge') and kw.get('prio') != -1:
@@ -498,7 +518,9 @@ class C13(MergeFamProp):
             'signature, negative, position+name duplicates, unknown names, float keys) x argument forms (mapping, list, '
             'scalar, empty, `!call name`) with plain, nested, xref and nested-call argument values; (b) a function node '
             'followed by 1-3 stages merging a mapping / list / same- or different-name string / same- or different-target '
-            'function node (with and without !merge, !del, priorities); distinct by SHA-1 of the case')
+            'function node (with and without !merge, !del, priorities), in 4 of 10 histories with !force / !weak on individual '
+            'arguments of the first node (each with probability 0.4 / 0.7 / 1) and of the later stages (0.25); distinct by '
+            'SHA-1 of the case')
     MODEL_DIVERGENCE = ("`r: !bind:sig.f1 {1.5: 0}` (a float key and no integer key on a bind node): the code returns "
                         "functools.partial(f1, **{1.5: 0}) because partial.__new__ does not check keyword types; "
                         "the model's resolveArgs returns none (evaluation error). Such cases are generated, checked by "
@@ -526,6 +548,13 @@ class C13(MergeFamProp):
             D('merge', M([('r', call('rec.f', [('a', S(1))]))]), M([('r', M([('a', S(5)), (0, S(6))]))])),
             D('merge', M([('r', call('rec.f', [('a', S(1))]))]), M([('r', Q([S(5), S(6)]))])),
             D('merge', M([('r', call('rec.f', [('a', S(1))], kw={'prio': 1}))]), M([('r', call('rec.g', [('b', S(2))]))])),
+            # a !force argument of the old target does not survive a change of target (seeded S3-C13) ...
+            D('merge', M([('r', call('rec.g', [(0, S(0, kw={'prio': 1}))]))]), M([('r', Q([], tag={'k': 'call', 'f': 'sig.d3'}))])),
+            D('merge', M([('r', call('rec.f', [('a', S(1, kw={'prio': 1})), ('b', S(2))], kind='bind'))]),
+              M([('r', call('rec.g', [('c', S(3))], kind='bind'))])),
+            D('merge', M([('r', call('rec.f', [('a', S(1))], kw={'prio': -1}))]), M([('r', call('rec.g', [('b', S(2))], kw={'prio': -1}))])),
+            # ... but stays when the target is the same
+            D('merge', M([('r', call('rec.f', [('a', S(1, kw={'prio': 1})), ('b', S(2))]))]), M([('r', call('rec.f', [('a', S(5)), ('c', S(3))]))])),
         ]
 
     def gen_cases(self, rng, n, tier):
@@ -679,6 +708,8 @@ class C13(MergeFamProp):
             for op in case.get('mode', '').split('+'):
                 f.append('op:' + op)
             f.append(f'stages={len(case["docs"])}')
+            if any(has_arg_prio(c) for d in case['docs'] for k, c in d['raw'].get('m', []) if sc_py(k) == 'r'):
+                f.append('argprio')
         r = io['cfg'].get('err', 'ok') if isinstance(io, dict) and 'cfg' in io else '?'
         return f + ['result:' + str(r)]
 
